@@ -52,7 +52,7 @@ of_compute_blocking_struct (UINT32			B,
 	double	A_fraction;
 
 	T		= (UINT32)ceil((double)L / (double)E);
-	bs->nb_blocks	= (INT32)ceil((double)T / (double)B);
+	bs->nb_blocks	= (UINT32)ceil((double)T / (double)B);
 	A		= (double)T/(double)bs->nb_blocks; /* average block size; non integer */
 	bs->A_large	= (UINT32)ceil((double)A);
 	bs->A_small	= (UINT32)floor((double)A);
